@@ -210,6 +210,15 @@ static void job_raw_server(void)
 			xp_count(K_RAW, 1);
 			if (adv_nout == 1 && (n = null_payload(&adv_outs[0], &pl)) >= 10 && memchr(pl, '-', n))
 				viol("response-to-an-earlier-challenge-accepted", "slot re-used with challenge 0x%08x: the response computed for the earlier challenge 0x%08x is accepted", ch, first);
+			/* ... a response that differs from the documented one in a single byte (every position, low bit / high bit) refused
+			 * (seeded C19-h: a comparison helper whose result is truncated so that only bytes 0, 4, 8 and 12 decide) ... */
+			for (int pos = 0; pos < 16; pos++) for (int bit = 0; bit < 2; bit++) {
+				ref_login(pw32, ch, lg + 1); lg[1 + pos] ^= bit ? 0x80 : 0x01; lg[17] = 5 + bit; lg[18] = (unsigned char)(sess * 16 + pos);
+				adv_clear(); adv_send(&me, ml, pkt, mkq(pkt, 300 + sess * 32 + pos * 2 + bit, 'l', lg, 19, c.topdomain));
+				xp_count(K_RAW, 1);
+				if (adv_nout == 1 && (n = null_payload(&adv_outs[0], &pl)) >= 10 && memchr(pl, '-', n))
+					viol("response-wrong-in-one-byte-accepted", "challenge 0x%08x: the documented response with byte %d changed by 0x%02x is accepted", ch, pos, bit ? 0x80 : 0x01);
+			}
 			/* ... and the documented response to this session's challenge accepted */
 			ref_login(pw32, ch, lg + 1); lg[17] = 4; lg[18] = (unsigned char)sess;
 			adv_clear(); adv_send(&me, ml, pkt, mkq(pkt, 220 + sess, 'l', lg, 19, c.topdomain));
